@@ -44,6 +44,8 @@ INTRO = [
     "s = 'x'\nprint(s.startswith('x'), s.endswith('x'), s.find('x'), s.join(['a', 'b']), s.isdigit(), s.isalpha(), s.title(), s.capitalize())",
     "x = ()\nfor a in x:\n    print(a)\nprint(len(x), x + (1,))", "pair = ()\nif not pair:\n    pair = (1, 2)\nprint(pair[0])",
     "from dataclasses import dataclass\n@dataclass\nclass P:\n    x: int\n    y: str\np = P(1, 'a')\nprint(p.x, p.y)",
+    # dictionaries whose keys are not literals, then used with a literal key
+    "name = input()\nd = {name: 5}\nprint(d['a'])\nd['b'] = 6\nprint(d.get('c'))", "a = 1\nb = 2\nd = {a + b: 'x'}\nd[3] = 'y'\nprint(d.get(3), d.pop(3))",
     # containers whose element / key / value types have nothing in common
     "d = {'a': 1, 'b': 'x'}\nfor k, v in d.items():\n    for c in v:\n        print(k, c)",
     "d = {'a': 1, 2: 'x'}\nfor k in d.keys():\n    print(k)\nfor v in d.values():\n    print(v)",
